@@ -37,7 +37,10 @@ SynViol(e) ==
   \cup (IF BagOf(n.targets) # BagOf(j.targets) THEN {V("absolute reference targets differ between native and JSON syntax")} ELSE {})
   \cup (IF ~agrees(topOf(j)) THEN {V("the JSON rendering does not yield the targets the configuration declares")} ELSE {})
   \cup (IF BagOf(n.origins) # BagOf(j.origins) THEN {V("reference origins differ between native and JSON syntax")} ELSE {})
-  \cup (IF BagOf(j.symbols) # BagOf(NamePaths(e.doc, "")) THEN {V("the JSON outline is not the block / attribute outline of the configuration")} ELSE {})
+  \cup (IF BagOf(j.symbols) # BagOf(NamePaths(e.doc, ""))
+        THEN {V("the JSON outline is not the block / attribute outline of the configuration"),
+              \* the same observation decides C14 for JSON files ("JSON with schema")
+              [V("the symbols of a JSON file do not correspond one-to-one to the attributes and blocks written in it") EXCEPT !.prop = "C14"]} ELSE {})
   \cup (IF BagOf(n.symbols) # BagOf(j.symbols) THEN {V("block / attribute outline differs between native and JSON syntax")} ELSE {})
 
 TInit == l = 1 /\ bad = {}
